@@ -1444,6 +1444,7 @@ func init() {
 		pool := runner.NewPool(0, strings.Fields(os.Getenv("VERIF_WORKER_ENV"))...)
 		defer pool.Close()
 
+		c23Appending(r, pool) // see c23append.go
 		cases := c23BuildCases(r)
 		if only := os.Getenv("C23_ONLY"); only != "" {
 			// debugging aid: restrict to some kinds (the evidence then says exhaustive:false)
